@@ -41,6 +41,12 @@ func main() {
 		os.Exit(cmdSeeded(os.Args[2:]))
 	case "benign":
 		os.Exit(cmdBenign(os.Args[2:]))
+	case "rules":
+		// the rule index (name, floor, what it decides), for DESIGN.md §10.15
+		for _, r := range sortedKeys(rules) {
+			fmt.Printf("- `%s` (floor %d): %s\n", r, rules[r].Floor, rules[r].Doc)
+		}
+		os.Exit(0)
 	case "list":
 		used := map[string]bool{}
 		for _, id := range sortedKeys(properties) {
